@@ -31,10 +31,12 @@ for p in sorted(byprop):
 out.append("")
 out.append("### 8.2 Changes seeded by independent sub-agents (seeded/<id>/, run with `tools/seeded.py runall`)\n")
 n_caught = sum(1 for v in sres.values() if "caught" in v.values())
+n_retired = sum(1 for v in sres.values() if "retired" in v.values())
 out.append(f"Each sub-agent was given only the text of one property and a scratch worktree; every kept change was confirmed by me (demo fails with the "
-           f"patch and passes without it; the 267-test baseline still passes with it). **{n_caught}/{len(sres)} are caught** by the quick tier of the "
-           f"check(s) in the last column. Rounds: `Cxx-mN` = round 1 (2 per property), `Cxx-r2mN` = round 2 (3 per property, asked for less obvious "
-           f"changes), `Cxx-r3mN` = round 3 (10 properties). A seed whose natural detector is the check of another property (the change breaks that "
+           f"patch and passes without it; the 267-test baseline still passes with it). **{n_caught}/{len(sres) - n_retired} are caught** by the quick tier of the "
+           f"check(s) in the last column ({n_retired} further changes are *retired*: a later `fix:` commit made them harmless, see their meta.json). "
+           f"Rounds: `Cxx-mN` = round 1 (2 per property), `Cxx-rKmN` = round K (3 per property; each round was steered towards another kind of change, §5). "
+           f"A seed whose natural detector is the check of another property (the change breaks that "
            f"property as well) is listed with that check (tools/seed_targets.json).\n")
 out.append("| seed | what it does / what it needs to manifest | caught by (clause family) |\n|---|---|---|")
 for name in sorted(sres):
@@ -55,4 +57,4 @@ if b not in s:
     raise SystemExit("markers missing in DESIGN.md")
 s = s[: s.index(b) + len(b)] + "\n" + text + s[s.index(e):]
 open(p, "w").write(s)
-print(f"mutants {killed}/{tot}; seeds {n_caught}/{len(sres)}")
+print(f"mutants {killed}/{tot}; seeds {n_caught}/{len(sres) - n_retired} (+{n_retired} retired)")
